@@ -147,19 +147,53 @@ func relName(fn *ssa.Function) string {
 }
 
 func stripTypeArgs(n string) string {
+	// removes type-argument lists ("[R]", "[go.shape.int]", "[K, V]") but keeps slice / array / map brackets: "[]error"
+	// and "error" are different types (an earlier version stripped every bracket, which made
+	// interface{Unwrap() []error} and interface{Unwrap() error} the same key)
 	var b strings.Builder
-	d := 0
-	for _, c := range n {
-		switch c {
-		case '[':
-			d++
-		case ']':
-			d--
-		default:
-			if d == 0 {
-				b.WriteRune(c)
+	rs := []rune(n)
+	for i := 0; i < len(rs); i++ {
+		c := rs[i]
+		if c != '[' {
+			b.WriteRune(c)
+			continue
+		}
+		// matching bracket
+		d, k := 0, i
+		for ; k < len(rs); k++ {
+			if rs[k] == '[' {
+				d++
+			} else if rs[k] == ']' {
+				d--
+				if d == 0 {
+					break
+				}
 			}
 		}
+		if k >= len(rs) {
+			b.WriteString(string(rs[i:]))
+			break
+		}
+		inner := string(rs[i+1 : k])
+		keep := inner == ""
+		if !keep {
+			digits := true
+			for _, x := range inner {
+				if x < '0' || x > '9' {
+					digits = false
+				}
+			}
+			keep = digits
+		}
+		if !keep && i >= 3 && string(rs[i-3:i]) == "map" {
+			keep = true
+		}
+		if keep {
+			b.WriteRune('[')
+			b.WriteString(stripTypeArgs(inner))
+			b.WriteRune(']')
+		}
+		i = k
 	}
 	return b.String()
 }
